@@ -157,13 +157,16 @@ reg("C08",
 
 reg("C14",
     gen=lambda seed, tier: (P.gen_abandon_programs(G.Rng(seed + 14), N(tier, 80, 800)) +
-                            P.gen_commit_programs(G.Rng(seed + 15), N(tier, 40, 400))),
-    monitors=[lambda rr: P.mon_abandon(rr) if "base" in rr.prog.tags else P.mon_commit(rr)],
+                            P.gen_commit_programs(G.Rng(seed + 15), N(tier, 40, 400)) +
+                            P.gen_size_matrix(G.Rng(seed + 142))),
+    monitors=[lambda rr: (P.mon_abandon(rr) if "base" in rr.prog.tags else
+                          P.mon_size_matrix(rr) if "matrix" in rr.prog.tags else P.mon_commit(rr))],
     extra=lambda seed, tier, flavours: LG.leg_fault_injection(LG.fault_cases_writes(G.Rng(seed + 141)), flavours[0], tier),
     nontrivial=lambda rr: has(rr, ("wdrop", "wcommit"), ()),
     rule="programs: two committed entries, then a writer (sync/async, keyed/by address, mapped/plain) dropped after "
          "0..all of its chunks, optionally with another successful write in between; plus the rejected-commit programs "
-         "of C08; listing, lookup and temp area afterwards; plus commits that FAIL because of an injected errno (strace) at "
+         "of C08 and its declared-size matrix (incl. a size declared and nothing written while another key holds the empty "
+         "value); listing, lookup and temp area afterwards; plus commits that FAIL because of an injected errno (strace) at "
          "every syscall class of a sync / async write: once the call has returned, the temp area holds no file")
 
 reg("C11",
